@@ -81,7 +81,15 @@ def main():
         m["check_result"] = {"exit": rc, "verdict": (v.split(" replay=")[0] + (" no-failing-input-found" if "no-failing-input-found" in v else "")) if v.startswith("VIOLATION") else None,
                              "with_failing_input": rc == 1 and "no-failing-input-found" not in v}
         json.dump(m, open(mp, "w"), indent=1)
-    open(os.path.join(HERE, "tools", "regress.log"), "w").write("\n".join(lines) + "\n")
+    logp = os.path.join(HERE, "tools", "regress.log")
+    old = {}
+    if args and os.path.exists(logp):            # a partial run updates the lines of the changes it ran
+        for ln in open(logp).read().splitlines():
+            if ln.strip():
+                old[ln.split(" ")[0]] = ln
+    for ln in lines:
+        old[ln.split(" ")[0]] = ln
+    open(logp, "w").write("\n".join(old[k] for k in sorted(old)) + "\n")
     bad = [l for l in lines if not l.endswith(" input")]
     print("%d changes; %d with input; others:\n%s" % (len(lines), len(lines) - len(bad), "\n".join(bad)))
 
